@@ -2,6 +2,7 @@ import RactorModel.Lemmas.Rpc
 import RactorModel.Lemmas.RpcGroups
 import RactorModel.Lemmas.RpcForward
 import RactorModel.Lemmas.RpcSup
+import RactorModel.Lemmas.RpcResults
 import RactorModel.Lemmas.CallResult
 import RactorModel.Lemmas.CallRace
 
@@ -346,6 +347,44 @@ theorem multi_call_result_index (ops : List Op) (g : Nat) (reqs : List Nat) (i :
   rw [h1, List.getElem?_take] at h2
   simpa [hi] using h2
 
+/-- (`multi_call`, the result vector is written through the threaded index) `mresults[g]` models the
+vector of rpc.rs: created with one empty entry per member, then `results[slot] = r` for each member as
+it completes (`writeFrom`, in completion order), where `slot` is the `enumerate` index threaded into the
+member's receiver task at send time. In every reachable state, for a group whose sends all succeeded:
+the `i`-th member (request order) carries slot `i`, and the vector IS the list of the members' results
+in request order (`groupResults`) — entries of members still waiting are empty. With
+`multi_call_request_order` / `multi_call_result_index`: `results[i]` is the result of the call to the
+`i`-th requested actor, whatever the completion order. -/
+theorem multi_call_result_vector (ops : List Op) (g : Nat) (v : List (Option Res))
+    (hv : (run ops).mresults[g]? = some v) (hnf : groupFailed (run ops) g = false) :
+    v = groupResults (run ops) g ∧
+    ∀ (i : Nat) (c : Call), (groupMembers (run ops) g)[i]? = some c → c.slot = i := by
+  have hm := minv_run ops
+  refine ⟨?_, ?_⟩
+  · rw [hm.vec g v hv]
+    unfold vecOf groupResults groupMembers
+    apply List.map_congr_left
+    intro c hc
+    have : failedRes c = false := by
+      unfold groupFailed groupMembers at hnf
+      rw [List.any_eq_false] at hnf
+      have := hnf c hc
+      simpa using this
+    simp [resView, this]
+  · intro i c hc
+    have hs := hm.slots g
+    unfold slotsOf at hs
+    have h1 : ((List.filter (gq g) (run ops).calls).map (·.slot))[i]? = some c.slot := by
+      have : (List.filter (gq g) (run ops).calls)[i]? = some c := hc
+      simp [List.getElem?_map, this]
+    rw [hs] at h1
+    have hi : i < ((List.filter (gq g) (run ops).calls).map (·.slot)).length := by
+      have h2 : (List.filter (gq g) (run ops).calls)[i]? = some c := hc
+      have := (List.getElem?_eq_some_iff.mp h2).1
+      simpa using this
+    rw [List.getElem?_range hi] at h1
+    exact (Option.some.inj h1).symm
+
 /-- (`multi_call`, answer by T) once the deadline of every member has passed the whole group is
 done: `multi_call` has returned its vector (every member resolved individually —
 `answered_by_deadline` — so the `JoinSet` is exhausted). -/
@@ -417,6 +456,7 @@ def exampleGroups : List Op :=
    .exit 2, .mcall [0, 2, 1] none, .fcall 0 1 none, .fcall 0 2 none, .fcall 0 1 (some 2),
    .handle 0 (.reply 7), .handle 0 (.reply 8), .handle 0 (.reply 9), .advance 2]
 example : groupResults (run exampleGroups) 0 = [some (.success 11), some .senderError, some .timeout] := by decide +kernel
+example : (run exampleGroups).mresults = [[some (.success 11), some .senderError, some .timeout], [none, none]] := by decide +kernel
 example : (run exampleGroups).mreqs = [[0, 1, 2], [0, 2, 1]] ∧ groupFailed (run exampleGroups) 1 = true := by decide +kernel
 example : (run exampleGroups).fwdlog = [(5, 1, 8, true), (6, 2, 9, false)] ∧
     ((run exampleGroups).calls.map (·.res)).drop 5 = [some (.success 8), some (.success 9), some .timeout] := by decide +kernel
@@ -632,6 +672,7 @@ end C09
 #print axioms C09.port_queued_once
 #print axioms C09.multi_call_request_order
 #print axioms C09.multi_call_result_index
+#print axioms C09.multi_call_result_vector
 #print axioms C09.multi_call_answered_by_deadline
 #print axioms C09.multi_call_step_request_order
 #print axioms C09.forward_exactly_once
